@@ -389,6 +389,24 @@ func runCheck(prop, tier string, seed int, timeout time.Duration, writeBaseline,
 		fmt.Printf("baseline written: %s (%d proved, %d unproved)\n", bpath, len(newProved), len(newUnproved))
 	}
 
+	// bounded stand-ins (labelled bounded; never counted as obligations)
+	var boundedEv []boundedResult
+	if !writeBaseline {
+		for _, sp := range loadBounded(prop) {
+			res, violated, err := runBounded(prop, tier, sp)
+			if err != nil {
+				return engineFail(prop, "%v", err)
+			}
+			if violated {
+				rp := writeBoundedReplay(filepath.Join(verifDir, "replays", prop), prop, res)
+				violations = append(violations, fmt.Sprintf("VIOLATION property=%s replay=%s bounded=%q disagreements=%d (failing inputs from the run on the real code are in the replay file)", prop, rp, res.Name, res.Disagreements))
+				res.Output = ""
+			}
+			boundedEv = append(boundedEv, res)
+			fmt.Printf("bounded property=%s %q cases=%d disagreements=%d bound=%q wall=%.1fs\n", prop, res.Name, res.Cases, res.Disagreements, res.Bound, res.WallS)
+		}
+	}
+
 	// evidence
 	var tb []string
 	for a := range trusted {
@@ -419,6 +437,7 @@ func runCheck(prop, tier string, seed int, timeout time.Duration, writeBaseline,
 			"undecided":    undecided,
 			"known_findings": knownLines,
 			"missing_obligations": missing,
+			"bounded": boundedEv,
 			"vacuity": map[string]interface{}{"probes_satisfiable": nVacOK, "probes_inconclusive": nVacInconcl, "unreachable_returns": unreachable},
 			"solver_time_s": stime,
 			"explanation":  "obligations = proof obligations claimed for this property (generated from /repo's current source); discharged = those a solver answered unsat for; undecided[] lists obligations never discharged on the reference tree (not counted, not claimed)",
